@@ -1750,5 +1750,40 @@ def rule_stamp_modular(ctx):
                             r.instance("%s: stamp used in integer %s" % (f, x[1]), False)
                             r.violate(f, "arith:" + x[1], "plain integer `%s` on a wrapping 4-bit epoch stamp (it is only "
                                       "meaningful inside the modular window: use Modular::max / Modular::le)" % x[1], e.loc())
+    # The modular comparison errs to "too recent" (ages beyond a wrap look young), and its verdict is about the epoch
+    # read then, not about the epoch at which the cascade will look.  "Too recent" is the harmless answer only where
+    # it makes the cascade defer; a branch on the verdict that decides whether an access gets *recorded* (one side
+    # writes a stamp, the other does not) turns the harmless error into a missing stamp.
+    MODC = ("utils::Modular::<WIDTH>::max", "utils::Modular::<WIDTH>::le")
+    WRITERS = (ST + "with_epoch", "ebr_impl::pointers::Tagged::<T>::with_high_tag")
+    for f in sorted(users):
+        sides, directed = {}, set()
+        for p in ctx.paths(f):
+            for i, e in enumerate(p.events):
+                if e.kind != "cond" or e.exp:
+                    continue
+                if not any(x[0] == "call" and x[1] in MODC for x in subterms(e.term)):
+                    continue
+                if isinstance(e.term, tuple) and e.term[0] == "call" and e.term[1] == MODC[1]:
+                    directed.add((e.body.name, e.bb))
+                writes = any(x.kind == "call" and x.target in WRITERS for x in p.events[i + 1:])
+                sides.setdefault((e.body.name, e.bb), {}).setdefault(e.value, set()).add(writes)
+                r.paths += 1
+        for key, sd in sorted(sides.items()):
+            n += 1
+            ws = {v: s for v, s in sd.items()}
+            always = [v for v, s in ws.items() if s == {True}]
+            never = [v for v, s in ws.items() if True not in s]
+            ok = not (always and never)
+            if not ok and key in directed:
+                # `le(stamp, limit)`: false is the `recent` verdict; writing a stamp only on that side (and deferring)
+                # is the cascade's own legitimate shape
+                ok = 0 not in never
+            r.instance("%s: modular verdict does not select whether a stamp is written" % f.split("::")[-1], ok)
+            if not ok:
+                r.violate(f, "verdict-selects-stamp", "a branch on a Modular::max/le verdict decides whether a stamp is written: "
+                          "the window errs to `too recent` (an age of 18 looks like 2) and is evaluated at the epoch read here, "
+                          "while the cascade evaluates the stamp later - skipping the write on `recent` leaves a stamp that is "
+                          "old enough one epoch on, although the access just made is not", ctx.prog.body(key[0]).loc(key[1]))
     r.require(n, 2, "stamp uses")
     return r
